@@ -458,3 +458,90 @@ Proof.
   - intros x _. apply Hg.
   - intros x _. split; [now apply tau_derive | now apply dtau_continuous].
 Qed.
+
+(* ------------------------------------------------------------------ *)
+(* 6. the u-integral of Ju is prim_val                                 *)
+(* ------------------------------------------------------------------ *)
+Lemma speval_continuous (f : list R) (x : R) : continuous (SPoly.peval RK f) x.
+Proof.
+  induction f as [|c f IH].
+  - apply continuous_const.
+  - apply (continuous_plus (fun _ : R => c) (fun s : R => s * SPoly.peval RK f s)).
+    + apply continuous_const.
+    + apply (continuous_mult (fun s : R => s) (SPoly.peval RK f)); [apply continuous_id | exact IH].
+Qed.
+
+(* Gprod is a polynomial in s: the coefficient list prim_poly of Proofs/OneElecP.v *)
+Lemma Gprod_is_poly (Cx Cy Cz Ax Ay Az Bx By Bz al be : R) (ca cb : Shell.comp) (s : R) :
+  Gprod Cx Cy Cz Ax Ay Az Bx By Bz al be ca cb s
+  = SPoly.peval RK (prim_poly RKB Cx Cy Cz Ax Ay Az Bx By Bz al be ca cb) s.
+Proof.
+  rewrite <- peval_RKB, (prim_poly_eval RKB RKB_field Cx Cy Cz Ax Ay Az Bx By Bz al be ca cb s).
+  reflexivity.
+Qed.
+
+(* the t-integrand of BoysBridge.prim_val_is_t_integral *)
+Definition tint (Cx Cy Cz Ax Ay Az Bx By Bz al be : R) (ca cb : Shell.comp) (t : R) : R :=
+  let p := al + be in
+  let Px := (al * Ax + be * Bx) / p in let Py := (al * Ay + be * By) / p in
+  let Pz := (al * Az + be * Bz) / p in
+  let pc2 := (Px - Cx) * (Px - Cx) + (Py - Cy) * (Py - Cy) + (Pz - Cz) * (Pz - Cz) in
+  Gprod Cx Cy Cz Ax Ay Az Bx By Bz al be ca cb (t ^ 2) * exp (- (p * pc2) * t ^ 2).
+
+Lemma tint_continuous Cx Cy Cz Ax Ay Az Bx By Bz al be ca cb t :
+  continuous (tint Cx Cy Cz Ax Ay Az Bx By Bz al be ca cb) t.
+Proof.
+  unfold tint. cbv zeta.
+  set (T := (al + be) * _).
+  apply (continuous_mult (fun t : R => Gprod Cx Cy Cz Ax Ay Az Bx By Bz al be ca cb (t ^ 2))
+                         (fun t : R => exp (- T * t ^ 2))).
+  - apply (continuous_ext (fun t : R => SPoly.peval RK (prim_poly RKB Cx Cy Cz Ax Ay Az Bx By Bz al be ca cb) (t ^ 2))).
+    + intro x. symmetry. apply Gprod_is_poly.
+    + apply (continuous_comp (fun t : R => t ^ 2) (SPoly.peval RK _)).
+      * apply (ex_derive_continuous (fun t : R => t ^ 2) t). auto_derive. exact I.
+      * apply speval_continuous.
+  - apply (ex_derive_continuous (fun t : R => exp (- T * t ^ 2)) t). auto_derive. exact I.
+Qed.
+
+Theorem prim_val_is_tint_integral (Cx Cy Cz Ax Ay Az Bx By Bz al be : R) (ca cb : Shell.comp) :
+  let p := al + be in
+  let mu := al * be / p in
+  let ab2 := (Ax - Bx) * (Ax - Bx) + (Ay - By) * (Ay - By) + (Az - Bz) * (Az - Bz) in
+  prim_val RKB Cx Cy Cz Ax Ay Az Bx By Bz al be ca cb
+  = (1 + 1) * PI / p * exp (- (mu * ab2)) * RInt (tint Cx Cy Cz Ax Ay Az Bx By Bz al be ca cb) 0 1.
+Proof. cbv zeta. rewrite prim_val_is_t_integral. reflexivity. Qed.
+
+(* Ju is the t-integrand composed with the substitution, times the Jacobian, times the constant prefactor *)
+Lemma Ju_as_substitution (Cx Cy Cz Ax Ay Az Bx By Bz al be : R) (ca cb : Shell.comp) (u : R) :
+  0 < al -> 0 < be ->
+  let p := al + be in
+  let mu := al * be / p in
+  let ab2 := (Ax - Bx) * (Ax - Bx) + (Ay - By) * (Ay - By) + (Az - Bz) * (Az - Bz) in
+  Ju Cx Cy Cz Ax Ay Az Bx By Bz al be ca cb u
+  = ((1 + 1) * PI / p * exp (- (mu * ab2)))
+    * (dtau p u * tint Cx Cy Cz Ax Ay Az Bx By Bz al be ca cb (tau p u)).
+Proof.
+  intros Ha Hb p mu ab2. assert (Hp : 0 < p) by (unfold p; lra).
+  pose proof (q_pos p u Hp) as Hq. assert (Hs : 0 < sqrt (p + u ^ 2)) by now apply sqrt_lt_R0.
+  pose proof sqrt_PI_pos as Hpi.
+  pose proof (sqrt_sqrt PI (Rlt_le _ _ PI_RGT_0)) as Epi.
+  pose proof (sqrt_sqrt (p + u ^ 2) (Rlt_le _ _ Hq)) as Hr.
+  unfold Ju, tint, dtau, mu, ab2. cbv zeta. fold p. rewrite (tau_sq p u Hp).
+  rewrite (sqrt_div_alt PI (p + u ^ 2) Hq).
+  set (G := Gprod _ _ _ _ _ _ _ _ _ _ _ _ _ _).
+  set (e1 := exp (- (al * be / p * _))). set (e2 := exp (- (p * _) * _)).
+  set (r := sqrt (p + u ^ 2)) in *. set (sp := sqrt PI) in *.
+  rewrite <- Epi, <- Hr. field. repeat split; lra.
+Qed.
+
+Theorem Ju_integral (Cx Cy Cz Ax Ay Az Bx By Bz al be : R) (ca cb : Shell.comp) :
+  0 < al -> 0 < be ->
+  hint (Ju Cx Cy Cz Ax Ay Az Bx By Bz al be ca cb) (prim_val RKB Cx Cy Cz Ax Ay Az Bx By Bz al be ca cb).
+Proof.
+  intros Ha Hb. assert (Hp : 0 < al + be) by lra.
+  pose proof (prim_val_is_tint_integral Cx Cy Cz Ax Ay Az Bx By Bz al be ca cb) as Hv. cbv zeta in Hv.
+  refine (hint_ext _ _ _ _ _ (eq_sym Hv)
+            (hint_scal _ _ _ (hint_subst_tau (al + be) (tint Cx Cy Cz Ax Ay Az Bx By Bz al be ca cb) Hp
+                                (tint_continuous Cx Cy Cz Ax Ay Az Bx By Bz al be ca cb)))).
+  intro u. symmetry. exact (Ju_as_substitution Cx Cy Cz Ax Ay Az Bx By Bz al be ca cb u Ha Hb).
+Qed.
